@@ -1,7 +1,7 @@
 (* Props/C09.v — The k-space trajectory is the running integral of the gradients.
    Only statements, each closed by [exact] of a lemma from Proofs/KSpaceProofs.v, with Print Assumptions. *)
 From Coq Require Import ZArith QArith Qabs List Bool Arith Lia Lqa.
-From PV Require Import Base.QUtil Base.PWL Gen.GenExport Model.Export Model.KSpace Proofs.KSpaceProofs Proofs.PrimProofs Proofs.ExportProofs Proofs.ExportArea Proofs.KSpaceFinal Proofs.KSpaceBridge.
+From PV Require Import Base.QUtil Base.PWL Gen.GenExport Model.Export Model.KSpace Proofs.KSpaceProofs Proofs.PrimProofs Proofs.ExportProofs Proofs.ExportArea Proofs.KSpaceFinal Proofs.KSpaceBridge Proofs.KSpaceEvents.
 Import ListNotations.
 Open Scope Q_scope.
 
@@ -50,6 +50,19 @@ Theorem C09_period_loop_is_spec : forall M evs t, ev_sorted_strict evs -> Forall
   k_loop M evs t == spec_k M (upto t evs) t.
 Proof. exact k_loop_is_spec. Qed.
 Print Assumptions C09_period_loop_is_spec.
+
+(* ... and those hypotheses follow from an input-level condition on the blocks: the pulse list rf_times collects
+   block by block (start + RF delay + RF centre) is strictly time-sorted with positive times whenever block
+   durations are non-negative and every RF centre lies inside its block (0 < delay + centre <= block duration).
+   So for every such block list the code's loop equals the specification. *)
+Theorem C09_rf_events_sorted : forall bs start, rf_inside bs ->
+  ev_sorted_strict (rf_events start bs) /\ Forall (fun e : ev => start < fst e) (rf_events start bs).
+Proof. intros bs start H. split; [apply rf_events_sorted|apply rf_events_after]; exact H. Qed.
+Print Assumptions C09_rf_events_sorted.
+Theorem C09_period_loop_blocks : forall M bs t, rf_inside bs ->
+  k_loop M (rf_events 0 bs) t == spec_k M (upto t (rf_events 0 bs)) t.
+Proof. exact k_loop_blocks_is_spec. Qed.
+Print Assumptions C09_period_loop_blocks.
 
 Theorem C09_adc_times_formula : forall start a i, (i < adc_n a)%nat ->
   length (adc_sample_times start a) = adc_n a /\
